@@ -11,8 +11,9 @@ def src_of(case):
     return case.get("src", "")
 
 
-# C01-N31 (C02-N8): a store (=, op=, ++, --) to the own name of a named function expression inside its body
-N31_RE = re.compile(r"function\s*\*?\s*([A-Za-z_$][\w$]*)\s*\([^)]*\)\s*\{.*?(?:\b\1\s*(?:=(?!=)|\+\+|--|[-+*/%&|^]=|<<=|>>>?=|\*\*=|\?\?=|&&=|\|\|=)|(?:\+\+|--)\s*\1\b)", re.S)
+# C01-N31 (C02-N8): a store (=, op=, ++, --, destructuring target, for-in/of target) to the own name of a named function expression inside its body
+N31_RE = re.compile(r"function\s*\*?\s*([A-Za-z_$][\w$]*)\s*\([^)]*\)\s*\{.*?(?:\b\1\s*(?:=(?!=)|\+\+|--|[-+*/%&|^]=|<<=|>>>?=|\*\*=|\?\?=|&&=|\|\|=)|(?:\+\+|--)\s*\1\b"
+                    r"|[\[{,:]\s*(?:\.\.\.)?\s*\1\s*[}\],][^;]*=(?!=)|\bfor\s*\(\s*\1\s+(?:of|in)\b)", re.S)   # also as a destructuring / for-in-of target
 
 
 def pred_n31(case, record, expected_text):
